@@ -12,9 +12,9 @@
     `SignLaws S`   rotation / swap / ±1-on-distinct-points of the exact sign (C02's theorems);
     `FloatSound S` triageSign, stableSign and the outward-tangent rejection never contradict the
                    exact sign  — float error analysis, NOT proved: theorems using it are `_partial`.
-  `FloatSound` is not a formality: `fullExactness_false` below shows a concrete quadruple of
-  (nearly) unit vectors on which the model — and the Go code, see DELIVER.md — decides differently
-  from the exact criterion, because stableSign's error bound underflows to 0.
+  `FloatSound` is not a formality: before repo commit cc06be0 (finding D24) the quadruple `wA…wD`
+  below made the model — and the Go code — decide differently from the exact criterion, because
+  stableSign's error bound underflowed to 0; it is kept as a regression witness.
 -/
 import S2Proofs.CrossingLemmas
 import S2Proofs.CrossingExamples
@@ -78,8 +78,8 @@ example : exactCrossing pC pD pX pY = exactCrossing pX pY pC pD :=
   exactCrossing_swap_edges L0_dom L0_signLaws (by mem) (by mem) (by mem) (by mem)
 
 /-- FULL STRENGTH statement of "decided exactly" (no float hypothesis): for all nearly unit-length
-    points, no edge with exactly antipodal endpoints.  It is FALSE for the model (and the code), see
-    `fullExactness_false`; what holds is `crossingSign_exact_partial`. -/
+    points, no edge with exactly antipodal endpoints.  It was FALSE for the model (and the code) before the
+    repair of finding D24 (witness `wA…wD` below); it is not proved; what holds is `crossingSign_exact_partial`. -/
 def nearUnit (p : V3) : Bool :=
   Exact.finite3 p &&
   decide ((((Exact.ofV3 p).norm2 - (Exact.scale : Int) ^ 2).natAbs) * 2 ^ 50 ≤ Exact.scale ^ 2)
@@ -361,7 +361,7 @@ end vertex
   d = b with x moved by two subnormal ulps (x = -1e-323).  The exact determinant of (c,d,b) is
   positive; before the repair of `stableSign` (repo commit cc06be0) `stableSign c d b` was -1 because
   `detErrorMultiplier * sqrt(|e1|²·|e2|²)` underflowed to 0, and `CrossingSign` answered DoNotCross
-  where the exact criterion says Cross (found by the C03 oracle, see DELIVER.md).  With the repaired
+  where the exact criterion says Cross (found by the C03 oracle; finding D24 in known_findings.json).  With the repaired
   code / model the quadruple is decided exactly. -/
 
 def wA : V3 := ⟨⟨0x0000000000000000⟩, ⟨0xbfc61a2a95f0073f⟩, ⟨0x3fef84f2ea145e79⟩⟩
